@@ -286,8 +286,13 @@ type Built struct {
 
 // Build runs MakeData / MakeInterest.
 func (c *Case) Build() (*Built, error) {
+	return c.BuildWith(c.MakeSigner())
+}
+
+// BuildWith runs MakeData / MakeInterest with a signer object supplied by the caller
+// (so that one signer can be used for several packets, as applications do).
+func (c *Case) BuildWith(signer ndn.Signer) (*Built, error) {
 	sp := spec.Spec{}
-	signer := c.MakeSigner()
 	name := c.Name.Clone()
 	if c.Kind == "data" {
 		cfg := c.DCfg
